@@ -95,7 +95,7 @@ func main() {
 
 	lap("concurrent")
 	// ---- layer 2: live cluster ----------------------------------------------------------------------
-	liveRuns, episodes, transfers := r.Pick(1, 5), r.Pick(4, 10), r.Pick(6, 8)
+	liveRuns, episodes, transfers := r.Pick(1, 5), r.Pick(6, 10), r.Pick(6, 8)
 	for i := 0; i < liveRuns; i++ {
 		runLive(r, r.Seed*9_000_011+int64(i), episodes, transfers)
 	}
